@@ -2,7 +2,7 @@
 # tools/wave_import.sh Cxx <wave-tag> <first-new-number>: import the seeds of /tmp/seed-Cxx<tag>/seed/{1,2}, run the check on each, drop the scratch worktree
 cd "$(dirname "$0")/.."
 p=$1; tag=$2; n=$3
-for i in 1 2; do
+for i in 1 2 3; do
   src=/tmp/seed-$p$tag/seed/$i
   [ -f $src/patch.diff ] || { echo "$p-$n: no seed $i"; continue; }
   id=$p-$n; n=$((n+1))
